@@ -689,7 +689,13 @@ def run_c12(ctx, spec):
     evals, distinct = 0, set()
     cmds, expect = [], []
     for _ in range(ncases):
-        name, sd, scenario = dyn.CaseGen(rng, {}).pick_scenario()
+        if rng.random() < 0.3:
+            # several routes to the same deep subnets (ring: two public ends; diamond: two branches)
+            fam = rng.choice(["ring", "diamond"])
+            sd = scen.random_sd(rng, family=fam)
+            name, scenario = fam, scen.sd_to_scenario(sd)
+        else:
+            name, sd, scenario = dyn.CaseGen(rng, {}).pick_scenario()
         sdw, hist = semantic_case(rng, sd, scenario, rng.randint(*nops) if not isinstance(nops, int) else nops)
         if not hist:
             continue
